@@ -72,7 +72,7 @@ PROPS["C11"] = {
     "verus": ["consolidate"],
     "kani": [],
     "level": "proof",
-    "level_text": "Unbounded Verus proof of the merge loop of consolidate_to_current (the function a restart replays the durable log through), sliced from /repo each run: for every tuple the net multiplicity of the output equals that of the log, no tuple appears twice, no zero entry remains. This is the recovery-function half of C11; that the write path keeps the log's net multiplicities equal to the live set is not decided. BOUNDED stand-ins on the whole engine (not counted as proved): every clean insert/delete history of length <= 5 over 2 tuples through StorageEngine, save, restart; histories with re-inserts / absent deletes (length <= 3) expose a genuine write-path defect recorded as a known finding.",
+    "level_text": "Unbounded Verus proof of the merge loop of consolidate_to_current (the function a restart replays the durable log through), sliced from /repo each run: for every tuple the net multiplicity of the output equals that of the log, no tuple appears twice, no zero entry remains. This is the recovery-function half of C11; that the write path keeps the log's net multiplicities equal to the live set is not decided. BOUNDED stand-ins on the whole engine (not counted as proved): every clean insert/delete history of length <= 5 over 2 tuples through StorageEngine, save, restart; histories with re-inserts / absent deletes (length <= 3) exposed a genuine write-path defect, which was repaired.",
     "level_note": "trusted: Verus+Z3; slice::sort_by groups equal data (replaced by precondition `grouped`, relies on C31); |diff|<=1 and len<2^62 (no i64 overflow); write path (locks + file system) not covered",
     "technique": "Verus loop invariant on a statement region extracted from /repo each run, erasure-checked; plus always-run bounded stand-in tests on the real code for the clauses outside both verifiers (labelled bounded, never counted as proved)",
     "aux_failure": "violation",
@@ -83,7 +83,7 @@ PROPS["C11"] = {
         "per-update |diff| <= 1 and log length < 2^62 (no i64 overflow in `+=`)",
         "Update::clone is field-wise, Tuple::eq is an equivalence with abstract value tv (external_body specs)",
         "log non-empty (the early return on an empty log is outside the region)",
-        "NOT decided: that insert_tuples_into/delete_tuples_from keep net(log,t) in {0,1} in step with the live set (by reading they do not: +1 is logged for tuples already present); that code is locks + file system",
+        "not decided deductively: that insert_tuples_into/delete_tuples_from keep net(log,t) in {0,1} in step with the live set (locks + file system) — covered by the bounded restart-history stand-ins only; two writers racing on the same tuple can still both log it (C15, not claimed)",
     ],
     "trusted_base": ["verus 0.2026.09.13 + z3", "vstd specs of Vec index/truncate and range iteration"],
     "explanation": "recovery = { t | net(log,t) > 0 }",
